@@ -2,7 +2,7 @@
 import importlib
 
 NAMES = ["named", "templates", "statesig", "leaves", "optimiser", "strhelpers", "parsersrc", "parserseq", "convstr", "api",
-         "cliresolve", "climain", "clisrc", "effectsig", "escapesig"]
+         "cliresolve", "climain", "clirules", "clisrc", "effectsig", "escapesig"]
 
 
 def modules():
